@@ -6,7 +6,7 @@ package polyjson
 //
 // verif:bound C15 structured sequences: every string field of Meta / Locus / Reference / Feature one symbolic printable byte (metadata) or 1..2 bytes, the sequence 5 symbolic letters, Locus flags and region bounds symbolic, feature coordinates from six spans (whole, interior, zero-width inside / at either end, last base); 0..1 (quick) / 0..2 (thorough) references, Other map absent / empty / one entry, 0..1 features with a location tree of depth <= 1 (quick) / 2 for the first feature (thorough) with symbolic partial flags, attribute map absent / empty / one entry
 // verif:bound C15 degenerate records: sequence of 0 or 1 symbolic letters carrying 1..2 features over the spans (0,L) (0,0) (L,L), alone or as a join of two, complement symbolic
-// verif:bound C15 format round trip: one GenBank record (3 feature tables) and one GFF record with symbolic name, words, qualifier / attribute values and sequence: Build(Parse(text)) equals Build(polyjson.Parse(JSON(Parse(text)))) byte for byte
+// verif:bound C15 format round trip: one GenBank record (4 feature tables, one with two qualifiers whose keys differ only in case; every iteration order of the qualifier maps for the direct write) and one GFF record with symbolic name, words, qualifier / attribute values and sequence: Build(Parse(text)) equals Build(polyjson.Parse(JSON(Parse(text)))) byte for byte
 // verif:assume C15 encoding/json is replaced by a contract model that walks the REAL struct types and tags of /repo's current source (exported fields, json:"name", json:"-", omitempty, duplicate names dropped, case-insensitive decode, nil <-> null); the JSON text layer (syntax, escaping, non-ASCII) is not modelled
 // verif:bound C15 outside the claim: JSON text syntax and escaping, non-ASCII text, temp files (Read/Write), long records
 
@@ -219,7 +219,10 @@ func Harness_C15_FormatRoundTrip() {
 	val := vBytes(2, "abcdefghijklmnopqrstuvwxyz0123456789")
 	seq := vBytes(12, "acgt")
 	feat := ""
-	switch vChoice(3) {
+	switch vChoice(4) {
+	case 3:
+		// two qualifiers whose keys differ only in case: different keys, both kept, in one fixed order
+		feat = "     gene            1..3\n                     /Note=\"" + val + "\"\n                     /note=\"x\"\n"
 	case 1:
 		feat = "     gene            1..3\n                     /gene=\"" + val + "\"\n"
 	case 2:
@@ -230,6 +233,9 @@ func Harness_C15_FormatRoundTrip() {
 		"REFERENCE   1  (bases 1 to 12)\n  AUTHORS   Doe,J.\n  TITLE     Direct " + word + "\n  JOURNAL   Unpublished\n  REMARK    noted\nCOMMENT     c " + word + "\n" +
 		"FEATURES             Location/Qualifiers\n" + feat + "ORIGIN\n        1 " + seq[:10] + " " + seq[10:] + "\n//\n"
 	a := genbank.Parse([]byte(gbk))
+	for i := range a.Features {
+		vObserveMap(a.Features[i].Attributes) // the direct write is explored under every iteration order of the qualifier maps
+	}
 	direct := genbank.Build(a)
 	js, err := json.MarshalIndent(a, "", " ")
 	vAssert(err == nil, "serialises")
